@@ -309,6 +309,21 @@ func floodVictim(addr string, seed int64, ln *liveNet, underRace bool) int {
 	}
 	var wg sync.WaitGroup
 	var total int64
+	// two join requests that each arrive several times, byte for byte, over
+	// different connections at once (a joiner that retries, or asks several
+	// times): one request, one answer per handler, and the node goes on
+	shared := [][]byte{}
+	for g := 0; g < 2; g++ {
+		key := detKey(seed, "flood-repeated-joiner", g)
+		p := mkPeer(key, fmt.Sprintf("127.0.0.1:%d", 41000+g), fmt.Sprintf("refuse-flood-repeated-%d", g))
+		itx := hg.NewInternalTransactionJoin(*p)
+		if err := itx.Sign(key); err != nil {
+			continue
+		}
+		if jb, err := json.Marshal(&bnet.JoinRequest{InternalTransaction: itx}); err == nil {
+			shared = append(shared, append([]byte{0}, append(jb, '\n')...))
+		}
+	}
 	for c := 0; c < conns; c++ {
 		c := c
 		wg.Add(1)
@@ -317,8 +332,14 @@ func floodVictim(addr string, seed int64, ln *liveNet, underRace bool) int {
 			rng := rand.New(rand.NewSource(seed*1000 + int64(c)))
 			for k := 0; k < per; k++ {
 				var payload []byte
+				if k == 0 && c < 8 && len(shared) == 2 {
+					payload = shared[c/4]
+				}
 				switch k % 4 {
 				case 0, 1, 2:
+					if payload != nil {
+						break
+					}
 					// a stranger's validly signed join request; the application refuses
 					// monikers that start with "refuse"
 					key := detKey(seed, "flood-joiner", c*10000+k)
@@ -335,6 +356,9 @@ func floodVictim(addr string, seed int64, ln *liveNet, underRace bool) int {
 				default:
 					jb, _ := json.Marshal(&bnet.SyncRequest{FromID: ln.Nodes[1].Peer.ID(), Known: map[uint32]int{}, SyncLimit: 5})
 					payload = append([]byte{1}, append(jb, '\n')...)
+				}
+				if payload == nil {
+					continue
 				}
 				conn, err := net.DialTimeout("tcp", addr, 2*time.Second)
 				if err != nil {
